@@ -1,11 +1,15 @@
 (** C16: sx interface of the model (decoders, run, monitor, judge).
 
-    input  = (srcK (fn hash size) buffer (answer...) method table)
+    input  = (srcK (fn hash size) buffer ((answer...) ...) method table)
       buffer (0 (event...)) CAS chunk-reader buffer | (1 attach (event...)) CAS reader buffer
              | (2 bytes) validated byte slice | (3 code) error buffer
+      ((answer...) ...)  the script of each error handler of the stack, innermost first:
+             WithErrorHandler(... WithErrorHandler(buffer, h0) ..., hk)
       answer (0 buffer) OnError returns a replacement | (1 code) OnError returns an error
       event, method, table, srcK as in C09 (Run/R09.v)
-    obs    = (delivered code (extra codes) (callback verdicts) (OnError argument codes) Done-count aux) *)
+    obs    = (delivered code (extra codes) (callback verdicts)
+              ((OnError argument codes) per level) (Done-count per level) aux
+              (Close() count of the scripted source of every stream-backed buffer, creation order)) *)
 From BBS Require Import Common.Sx Buffer.Source Buffer.Validate Buffer.Convert Buffer.ErrHandler Run.R09.
 Open Scope Z_scope.
 
@@ -31,32 +35,55 @@ Definition buf_fuel (b : bufscript) : nat :=
   | BBytes d => (16 + 4 * length d)%nat
   | BError _ => 4%nat
   end.
-Definition case_fuel (b0 : bufscript) (ans : list answer) : nat :=
-  (buf_fuel b0 + fold_right (fun a n => match a with Replace b => buf_fuel b | _ => 4 end + n) 0 ans)%nat.
+Definition ans_fuel (ans : list answer) : nat :=
+  fold_right (fun a n => match a with Replace b => buf_fuel b | _ => 4 end + n)%nat 0%nat ans.
+Definition case_fuel (b0 : bufscript) (ans : list answer) : nat := (buf_fuel b0 + ans_fuel ans)%nat.
+Definition stack_fuel (b0 : bufscript) (anss : list (list answer)) : nat :=
+  (buf_fuel b0 + fold_right (fun ans n => ans_fuel ans + n)%nat 0%nat anss)%nat.
 
 Definition is_onerror (h : hev) : bool := match h with HOnError _ => true | _ => false end.
+Definition enc_onerrors (log : list hev) : sx :=
+  L (flat_map (fun h => match h with HOnError e => [enc_err e] | HDone => [] end) log).
+Definition enc_dones (log : list hev) : sx := of_nat (length (filter (fun h => negb (is_onerror h)) log)).
+(** depth 1, the model of the single handler ([run_case]); projected observation *)
 Definition enc_out16 (report : bool) (o : outcome16) : sx :=
   L [of_Ns (x_data o); enc_err (x_err o); L (map enc_err (x_extra o));
      L (if report then map of_bool (x_cbs o) else []);
-     L (flat_map (fun h => match h with HOnError e => [enc_err e] | HDone => [] end) (x_log o));
-     of_nat (length (filter (fun h => negb (is_onerror h)) (x_log o)));
-     of_Ns (x_aux o)].
+     enc_onerrors (x_log o); enc_dones (x_log o); of_Ns (x_aux o)].
+Definition enc_out16s (report : bool) (o : outcome16s) : sx :=
+  L [of_Ns (y_data o); enc_err (y_err o); L (map enc_err (y_extra o));
+     L (if report then map of_bool (y_cbs o) else []);
+     L (map enc_onerrors (y_logs o)); L (map enc_dones (y_logs o)); of_Ns (y_aux o);
+     of_nats (y_closes o)].
 
 Record case16 := mkCase16 {
-  q_report : bool; q_cfg : vcfg; q_b0 : bufscript; q_ans : list answer; q_meth : meth;
+  q_report : bool; q_cfg : vcfg; q_b0 : bufscript; q_anss : list (list answer); q_meth : meth;
   q_tbl : list (bytes * bytes)
 }.
 Definition dec_case16 (inp : sx) : case16 :=
   let d := sx_nth inp 1 in
   let report := sx_bool (sx_nth inp 0) in
   mkCase16 report (mkVcfg (dec_bytes (sx_nth d 1)) (sx_N (sx_nth d 2)) (if report then 13 else 3))
-           (dec_buf (sx_nth inp 2)) (map dec_answer (sx_list (sx_nth inp 3)))
+           (dec_buf (sx_nth inp 2)) (map (fun l => map dec_answer (sx_list l)) (sx_list (sx_nth inp 3)))
            (dec_meth (sx_nth inp 4)) (dec_table (sx_nth inp 5)).
 
 Definition run16 (inp : sx) : sx :=
   let c := dec_case16 inp in
-  enc_out16 (q_report c)
-    (run_case (lookup (q_tbl c)) (q_cfg c) (case_fuel (q_b0 c) (q_ans c)) (q_b0 c) (q_ans c) (q_meth c)).
+  enc_out16s (q_report c)
+    (run_stack (lookup (q_tbl c)) (q_cfg c) (stack_fuel (q_b0 c) (q_anss c)) (q_b0 c) (q_anss c) (q_meth c)).
+
+(** a stack of one handler is also run through the model of the single
+    handler, the subject of the theorems on [ehc_read], [try_repeatedly] and [run_case] *)
+Definition run16_single (inp : sx) : option sx :=
+  let c := dec_case16 inp in
+  match q_anss c with
+  | [ans] => Some (enc_out16 (q_report c)
+               (run_case (lookup (q_tbl c)) (q_cfg c) (case_fuel (q_b0 c) ans) (q_b0 c) ans (q_meth c)))
+  | _ => None
+  end.
+Definition project_single (obs : sx) : sx :=
+  L [sx_nth obs 0; sx_nth obs 1; sx_nth obs 2; sx_nth obs 3; sx_nth (sx_nth obs 4) 0; sx_nth (sx_nth obs 5) 0;
+     sx_nth obs 6].
 
 (** * Monitor.  Specification of the stitched unvalidated stream: what each
     buffer delivers from the offset reached so far until it ends or fails,
@@ -83,6 +110,26 @@ Fixpoint stitch (b : bufscript) (k : N) (ans : list answer) : bytes * err * list
           let '(p2, t2, offs) := stitch b' (k + lenN p)%N rest in (p ++ p2, t2, t :: offs)
       end
   end.
+(** the stream of one level of a stack: its base delivers [p] and ends with [t] *)
+Definition stitch_from (p : bytes) (t : err) (ans : list answer) : bytes * err * list err :=
+  match t with
+  | EEof => (p, EEof, [])
+  | _ =>
+      match ans with
+      | [] => (p, ECode 10, [t])
+      | Fail c :: _ => (p, ECode c, [t])
+      | Replace b' :: rest =>
+          let '(p2, t2, offs) := stitch b' (lenN p) rest in (p ++ p2, t2, t :: offs)
+      end
+  end.
+(** the stream of the stack and, per level, the errors it is offered *)
+Fixpoint stitch_stack (p : bytes) (t : err) (anss : list (list answer)) : bytes * err * list (list err) :=
+  match anss with
+  | [] => (p, t, [])
+  | ans :: rest =>
+      let '(p1, t1, offs) := stitch_from p t ans in
+      let '(p2, t2, offss) := stitch_stack p1 t1 rest in (p2, t2, offs :: offss)
+  end.
 
 Fixpoint bytes_prefix (a b : bytes) : bool :=
   match a, b with
@@ -99,16 +146,65 @@ Fixpoint is_prefix (a b : list Z) : bool :=
 Definition code_of (e : err) : Z :=
   match e with ENone => 0 | EEof => -1 | EUnexp => -2 | EFuel => -3 | ECode c => c end.
 
-(** the buffer in use after [j] replacements *)
-Fixpoint buffer_after (b : bufscript) (ans : list answer) (j : nat) : option bufscript :=
-  match j, ans with
-  | O, _ => Some b
-  | S j', Replace b' :: rest => buffer_after b' rest j'
-  | S _, _ => None
+(** the error a handler has returned, given its script and what it was offered:
+    its answer to the last offer (a handler without further answers says 10) *)
+Definition returned (ans : list answer) (j : nat) : option Z :=
+  match j with
+  | O => None
+  | S j' => match nth_error ans j' with
+            | Some (Fail c) => Some c
+            | None => Some 10
+            | Some (Replace _) => None
+            end
   end.
-Definition all_bytes_trusted (valid : bytes -> bool) (b0 : bufscript) (ans : list answer) : bool :=
+(** all answers before the last one consulted were replacements *)
+Definition asked_after_error (ans : list answer) (j : nat) : bool :=
+  existsb (fun a => match a with Fail _ => true | Replace _ => false end) (firstn (Nat.pred j) ans)
+  || (length ans <? Nat.pred j)%nat.
+(** the plain buffer in use in the end *)
+Fixpoint buffer_in_use (cur : option bufscript) (anss : list (list answer)) (offd : list (list Z))
+  : option bufscript :=
+  match anss, offd with
+  | ans :: anss', o :: offd' =>
+      buffer_in_use (match length o with
+                     | O => cur
+                     | S j' => match nth_error ans j' with Some (Replace b) => Some b | _ => None end
+                     end) anss' offd'
+  | _, _ => cur
+  end.
+Definition all_bytes_trusted (valid : bytes -> bool) (b0 : bufscript) (anss : list (list answer)) : bool :=
   forallb (fun b => match b with BBytes d => valid d | _ => true end)
-          (b0 :: flat_map (fun a => match a with Replace b => [b] | _ => [] end) ans).
+          (b0 :: flat_map (fun a => match a with Replace b => [b] | _ => [] end) (concat anss)).
+
+(** the stack rule on pairs of neighbouring levels: what the inner handler
+    returns is what the outer one is offered first; nothing else reaches it
+    before that *)
+Fixpoint stack_rule (anss : list (list answer)) (offd : list (list Z)) : bool :=
+  match anss, offd with
+  | ans :: ((_ :: _) as anss'), o :: ((o' :: _) as offd') =>
+      (match returned ans (length o) with
+       | Some c => match o' with x :: _ => x =? c | [] => false end
+       | None => match o' with [] => true | _ => false end
+       end) && stack_rule anss' offd'
+  | _, _ => true
+  end.
+Fixpoint forall2b {A B} (f : A -> B -> bool) (l : list A) (l' : list B) : bool :=
+  match l, l' with
+  | [], [] => true
+  | x :: r, y :: r' => f x y && forall2b f r r'
+  | _, _ => false
+  end.
+
+(** clauses 8 and 9 as functions of the observation *)
+Definition obs_dones (obs : sx) : list Z := sx_Zs (sx_nth obs 5).
+Definition obs_closes (obs : sx) : list Z := sx_Zs (sx_nth obs 7).
+Definition clause8 (anss : list (list answer)) (dones : list Z) : bool :=
+  forallb (fun d => d =? 1) dones && (length dones =? length anss)%nat.
+Definition clause9 (closes : list Z) : bool := forallb (fun n => n =? 1) closes.
+Definition obs_offered (obs : sx) : list (list Z) := map sx_Zs (sx_list (sx_nth obs 4)).
+Definition clause10 (anss : list (list answer)) (offd : list (list Z)) : bool :=
+  stack_rule anss offd && (length offd =? length anss)%nat
+  && forall2b (fun ans o => negb (asked_after_error ans (length o))) anss offd.
 
 Definition mon16 (inp obs : sx) : list Z :=
   let c := dec_case16 inp in
@@ -116,37 +212,47 @@ Definition mon16 (inp obs : sx) : list Z :=
   let size := g_size (q_cfg c) in
   let validb (d : bytes) := (lenN d =? size)%N && bytes_eqb (g_hash (q_cfg c)) (H d) in
   let m := q_meth c in
+  let anss := q_anss c in
   let delivered := dec_bytes (sx_nth obs 0) in
   let code := sx_Z (sx_nth obs 1) in
-  let offered := sx_Zs (sx_nth obs 4) in
-  let dones := sx_Z (sx_nth obs 5) in
+  let offd := obs_offered obs in
+  let dones := obs_dones obs in
+  let closes := obs_closes obs in
   let done := completes m code in
-  let trusted := all_bytes_trusted validb (q_b0 c) (q_ans c) in
-  let j := length offered in
+  let trusted := all_bytes_trusted validb (q_b0 c) anss in
+  (* the outermost handler: its script, what it was offered *)
+  let top_ans := last anss [] in
+  let top_off := last offd [] in
+  let j := length top_off in
   let streaming := match m with MIntoWriter | MToChunkReader _ _ _ | MToReader _ _ => true | _ => false end in
-  let '(st, term, offs) := stitch (q_b0 c) 0 (q_ans c) in
+  let '(p0, t0) := piece_of (q_b0 c) 0 in
+  let '(st, term, offss) := stitch_stack p0 t0 anss in
   let st_valid := err_eqb term EEof && validb st in
   (* data handed over together with the handler's error may already exceed the digest's size *)
   let toolong (code : Z) := streaming && (code =? g_code (q_cfg c)) && (size <? lenN st)%N in
-  (* 1: Done must be reported exactly once *)
-  (if dones =? 1 then [] else [1]) ++
+  (* 1: Done must be reported exactly once (outermost handler) *)
+  (if last dones 0 =? 1 then [] else [1]) ++
+  (* 8: Done is reported exactly once to the handler of every level *)
+  (if clause8 anss dones then [] else [8]) ++
+  (* 9: every underlying reader is closed exactly once *)
+  (if clause9 closes then [] else [9]) ++
+  (* 10: stacks: the inner handler's error is what the next outer handler is offered, first and
+         once; a handler that has answered with an error is not asked again *)
+  (if clause10 anss offd then [] else [10]) ++
   (if is_discard m then [] else
   (* 2: the last answer consulted was an error: that error is what the consumer gets *)
-  (match j with
-   | O => []
-   | S j' => match nth_error (q_ans c) j' with
-             | Some (Fail c') => if (code =? c') || toolong code then [] else [2]
-             | None => if (code =? 10) || toolong code then [] else [2]
-             | Some (Replace _) => []
-             end
+  (match returned top_ans j with
+   | Some c' => if (code =? c') || toolong code then [] else [2]
+   | None => []
    end) ++
   (if streaming then
      (* 3: completion => the stitched stream is valid and the consumer received exactly
            its expected slice: every byte once, in order *)
      (if done && trusted && negb (st_valid && bytes_eqb delivered (expected m st)) then [3] else []) ++
      (* 4: every I/O error of an underlying buffer is offered once, in order (none invented,
-           none repeated, none skipped); all of them when the stream completed *)
-     (if is_prefix offered (map code_of offs) && (negb done || (j =? length offs)%nat) then [] else [4]) ++
+           none repeated, none skipped), at every level; all of them when the stream completed *)
+     (if forall2b (fun o offs => is_prefix o (map code_of offs) && (negb done || (length o =? length offs)%nat))
+                  offd offss then [] else [4]) ++
      (* 7: whatever the outcome, the bytes handed out are the stitched stream's, once and in order *)
      (if trusted && negb (bytes_prefix delivered (expected m st)) then [7] else []) ++
      (* 5: invalid stitched stream: fewer than size bytes handed out *)
@@ -156,7 +262,7 @@ Definition mon16 (inp obs : sx) : list Z :=
      (* 6: whole-operation retries: completion => the buffer in use after the offered
            errors holds valid content and the consumer received its expected slice *)
      (if done && trusted then
-        match buffer_after (q_b0 c) (q_ans c) j with
+        match buffer_in_use (Some (q_b0 c)) anss offd with
         | Some b =>
             let '(cont, t) := ucontent b in
             if err_eqb t EEof && validb cont && bytes_eqb delivered (expected m cont) then [] else [6]
@@ -164,4 +270,11 @@ Definition mon16 (inp obs : sx) : list Z :=
         end
       else []))).
 
-Definition judge16 : sx -> sx -> sx := judge_det run16 mon16.
+Definition judge16 (inp obs : sx) : sx :=
+  let m := run16 inp in
+  let v := mon16 inp obs in
+  let single := match run16_single inp with
+                | Some m1 => sx_eqb m1 (project_single obs)
+                | None => true
+                end in
+  verdict (sx_eqb m obs && single) (negb (match v with [] => true | _ => false end)) m (of_Zs v).
